@@ -109,6 +109,9 @@ Catalogue ==
     f_proto   |-> Filter(V1, [t |-> "ext", x |-> ".proto"]),
     f_in_a    |-> Filter(V1, [t |-> "contained", d |-> <<"a">>]),
     f_not_b   |-> Filter(V1, [t |-> "not", m |-> [t |-> "eqorcontained", d |-> <<"b">>]]),
+    \* "contained in" is strict: a file whose path *equals* the directory named is not inside it
+    f_in_file |-> Filter(V1, [t |-> "contained", d |-> <<"a.proto">>]),
+    f_not_in_file |-> Filter(V1, [t |-> "not", m |-> [t |-> "contained", d |-> <<"a.proto">>]]),
     multi     |-> Multi(V1, V2),
     multi_rev |-> Multi(V2, V1),
     overlay   |-> Overlay(V1, V2),
